@@ -1,6 +1,7 @@
 PROP = dict(
     engine="chain", harness="chain", driver="drv_chain",
-    props=["Hostd.Props.C06"],
+    props=["Hostd.Props.C06", "Hostd.Gen.ChainSqlTie"],
+    pregen=[["go", "run", "./sqlwhere", "{repo}", "{lean}/Hostd/Gen/ChainSql.lean"]],
     shard_extra=[dict(level="store"), dict(level="mgr")],
     driver_args=["c06/"],
     flag_filter=r"^c06/",
